@@ -276,6 +276,7 @@ func ruleGem(p *Prog, r *Report) {
 			}
 		}
 		var cuts []string
+		var leadCuts []*ssa.Slice
 		for _, fn := range p.RepoReachable(e.NewVer) {
 			if fn == trim || fn.Blocks == nil || segT == nil {
 				continue
@@ -283,6 +284,11 @@ func ruleGem(p *Prog, r *Report) {
 			for _, b := range fn.Blocks {
 				for _, ins := range b.Instrs {
 					if sl, ok := ins.(*ssa.Slice); ok && types.Identical(sl.X.Type(), segT) && (sl.High != nil || sl.Low != nil) {
+						if leadRunCut(sl) {
+							// the list taken apart where its leading numeric segments end (R-GEM-CANON looks at what happens to the parts)
+							leadCuts = append(leadCuts, sl)
+							continue
+						}
 						cuts = append(cuts, fn.Name()+" ("+p.Pos(sl.Pos())+")")
 					}
 				}
@@ -295,7 +301,40 @@ func ruleGem(p *Prog, r *Report) {
 		case len(cuts) > 0:
 			r.Bad("R-GEM-ONLYTRIM", key, p.FnPos(e.NewVer), "the segment list is cut outside the trailing-zero trimming, in "+cuts[0]+": segments in front of a later one can be dropped, and a version then no longer sorts with the versions that share its leading segments")
 		default:
-			r.Ok("R-GEM-ONLYTRIM", key, p.FnPos(e.NewVer), "no function of the constructor's call tree other than the trimming takes a sub-slice of a segment list")
+			r.Ok("R-GEM-ONLYTRIM", key, p.FnPos(e.NewVer), fmt.Sprintf("no function of the constructor's call tree other than the trimming takes a sub-slice of a segment list (%d cut(s) where the leading numeric segments end: R-GEM-CANON)", len(leadCuts)))
+		}
+		// ---- R-GEM-CANON: the zeros that end the leading numeric segments are dropped too ---------------------
+		// Gem::Version#<=> compares canonical segments: trailing zeros are dropped from the segments in front of
+		// the first string segment and from the rest, so 1.0.rc1 and 1.rc1 are the same version. Position by
+		// position with "missing = 0" the zeros at the end of the list take care of themselves; those in front of
+		// the first letter do not. The constructor has to hand the leading numeric run to the trimming on its own.
+		{
+			key := "gem: zero segments that end the leading numeric segments are dropped"
+			var head, tail *ssa.Slice
+			for _, sl := range leadCuts {
+				if sl.Low == nil && sl.High != nil {
+					for _, ref := range *sl.Referrers() {
+						if c, ok := ref.(*ssa.Call); ok && trim != nil && c.Call.StaticCallee() == trim {
+							head = sl
+						}
+					}
+				}
+				if sl.Low != nil && sl.High == nil {
+					tail = sl
+				}
+			}
+			switch {
+			case trim == nil:
+				r.Und("R-GEM-CANON", key, p.FnPos(e.NewVer), "trailing-zero trimming not identified")
+			case head == nil:
+				r.Bad("R-GEM-CANON", key, p.FnPos(e.NewVer), "the trimming is never applied to the leading numeric segments on their own (list[:k] with k the end of the leading run of numeric segments): zeros in front of the first letter stay, so 1.0.rc1 and 1.rc1 compare unequal where Gem::Version#<=> compares canonical segments and gives 0")
+			case tail == nil || tail.X != head.X || tail.Low != head.High:
+				r.Bad("R-GEM-CANON", key, p.Pos(head.Pos()), "the segments from the first string segment on (list[k:]) are not kept next to the trimmed leading numeric segments")
+			case !inConstructorPath(p, e.NewVer, head.Parent()):
+				r.Bad("R-GEM-CANON", key, p.Pos(head.Pos()), head.Parent().Name()+" is not applied on the way to the stored segments")
+			default:
+				r.Ok("R-GEM-CANON", key, p.Pos(head.Pos()), fmt.Sprintf("%s hands list[:k] (k = end of the leading numeric run) to %s and keeps list[k:] behind it", head.Parent().Name(), trim.Name()))
+			}
 		}
 	}
 
@@ -312,6 +351,7 @@ func ruleGem(p *Prog, r *Report) {
 			}
 		}
 		preSite, forced, conditional := "", "", ""
+		perHyphen := false
 		for _, fn := range p.RepoReachable(e.NewVer) {
 			for _, b := range fn.Blocks {
 				for _, ins := range b.Instrs {
@@ -328,6 +368,24 @@ func ruleGem(p *Prog, r *Report) {
 											for _, l := range loops {
 												if l.header == iff.Block() && !l.body[b] {
 													return false
+												}
+											}
+										}
+									}
+								}
+								// the iteration test of a loop around the insertion: fine when the loop runs over the
+								// hyphen-separated groups (every '-' gets its "pre")
+								if bo, ok := cond.(*ssa.BinOp); ok && bo.Op == token.LSS {
+									for _, l := range loops {
+										if l.body[b] && l.header == iffBlockOf(cond) {
+											if lv, ok := lenArgAny(bo.Y); ok {
+												if sc, ok := lv.(*ssa.Call); ok {
+													if g := sc.Call.StaticCallee(); g != nil && extName(g) == "strings.Split" {
+														if sep, ok := constString(sc.Call.Args[1]); ok && sep == "-" {
+															perHyphen = true
+															return false
+														}
+													}
 												}
 											}
 										}
@@ -367,8 +425,18 @@ func ruleGem(p *Prog, r *Report) {
 		default:
 			r.Ok("R-GEM-PRE", key, preSite, fmt.Sprintf("the hyphen branch appends %s(\"pre\") and builds the following parts with %s like any other segment", mk.Name(), mk.Name()))
 		}
+		// every hyphen: Gem::Version replaces each '-' by '.pre.', and RubyGems' pattern allows several
+		if mk != nil && preSite != "" {
+			key := "gem: every hyphen introduces the segment \"pre\""
+			if perHyphen {
+				r.Ok("R-GEM-PRE", key, preSite, "the segment is appended once per group of strings.Split(hyphen part, \"-\")")
+			} else {
+				r.Bad("R-GEM-PRE", key, preSite, "the segment \"pre\" is appended once, not once per '-': after the first hyphen a further '-' stays inside a segment (1.0-a-b gets the segment \"a-b\"), where Gem::Version reads 1.0.pre.a.pre.b; 1.0-a-b then sorts above 1.0-a instead of below")
+			}
+		}
 	}
 	r.Floor("R-GEM-TABLE", 3)
+	r.Floor("R-GEM-CANON", 1)
 	r.Floor("R-GEM-TRIM", 1)
 	r.Floor("R-GEM-PRE", 1)
 }
@@ -489,4 +557,105 @@ func trailingTrimShape(fn *ssa.Function) bool {
 		}
 	}
 	return false
+}
+
+// leadRunCut: the slice expression cuts list X at k, where k counts the leading run of numeric segments:
+// a loop counter that starts at 0, steps by 1 and goes on while k < len(X) and the bool field of X[k] holds.
+func leadRunCut(sl *ssa.Slice) bool {
+	var k ssa.Value
+	for _, b := range []ssa.Value{sl.Low, sl.High, sl.Max} {
+		if b == nil {
+			continue
+		}
+		if k != nil && k != b {
+			return false
+		}
+		k = b
+	}
+	ph, ok := k.(*ssa.Phi)
+	if !ok || !isIntType(ph.Type()) {
+		return false
+	}
+	var l *loop
+	for _, x := range findLoops(ph.Parent()) {
+		if x.header == ph.Block() {
+			l = x
+		}
+	}
+	if l == nil || len(ph.Edges) != 2 {
+		return false
+	}
+	zero, step := false, false
+	for i, ed := range ph.Edges {
+		if l.body[l.header.Preds[i]] {
+			if bo, ok := ed.(*ssa.BinOp); ok && bo.Op == token.ADD && bo.X == ssa.Value(ph) {
+				if n, ok := constInt(bo.Y); ok && n == 1 {
+					step = true
+				}
+			}
+		} else if n, ok := constInt(ed); ok && n == 0 {
+			zero = true
+		}
+	}
+	if !zero || !step {
+		return false
+	}
+	bound, flag := false, false
+	for b := range l.body {
+		iff, ok := b.Instrs[len(b.Instrs)-1].(*ssa.If)
+		if !ok {
+			continue
+		}
+		if bo, ok := iff.Cond.(*ssa.BinOp); ok && bo.Op == token.LSS && bo.X == ssa.Value(ph) && isLenOf(bo.Y, sl.X) {
+			bound = true
+		}
+		if ld, ok := iff.Cond.(*ssa.UnOp); ok && ld.Op == token.MUL && isBoolType(ld.Type()) {
+			if fa, ok := ld.X.(*ssa.FieldAddr); ok {
+				if ia, ok := fa.X.(*ssa.IndexAddr); ok && ia.X == sl.X && ia.Index == ssa.Value(ph) {
+					flag = true
+				}
+			}
+		}
+	}
+	// the cut is taken after the loop
+	return bound && flag && !l.body[sl.Block()]
+}
+
+// inConstructorPath: fn is called (outside loops) by a function of the constructor's call tree
+func inConstructorPath(p *Prog, ctor, fn *ssa.Function) bool {
+	for _, g := range p.RepoReachable(ctor) {
+		loops := findLoops(g)
+		for _, b := range g.Blocks {
+			for _, ins := range b.Instrs {
+				if c, ok := ins.(*ssa.Call); ok && c.Call.StaticCallee() == fn {
+					in := false
+					for _, lp := range loops {
+						in = in || lp.body[b]
+					}
+					if !in {
+						return true
+					}
+				}
+			}
+		}
+	}
+	return false
+}
+
+// iffBlockOf: the block whose If tests cond (nil when it is not tested by exactly one If)
+func iffBlockOf(cond ssa.Value) *ssa.BasicBlock {
+	refs := cond.Referrers()
+	if refs == nil {
+		return nil
+	}
+	var out *ssa.BasicBlock
+	for _, ref := range *refs {
+		if iff, ok := ref.(*ssa.If); ok {
+			if out != nil {
+				return nil
+			}
+			out = iff.Block()
+		}
+	}
+	return out
 }
